@@ -235,7 +235,7 @@ impl CKKSEncoder {
         // Verify that the values are not too large to fit in coeff_modulus
         // Note that we have an extra + 1 for the sign bit
         // Don't compute logarithmis of numbers less than 1
-        let max_coeff_bit_count = max_coeff.max(1.0).log2().ceil() as usize;
+        let max_coeff_bit_count = (max_coeff.max(1.0).log2().ceil() as usize).saturating_add(1);
         if max_coeff_bit_count >= context_data.total_coeff_modulus_bit_count() {
             panic!("[Invalid argument] Values are too large to encode.");
         }
@@ -367,7 +367,7 @@ impl CKKSEncoder {
         // Verify that the values are not too large to fit in coeff_modulus
         // Note that we have an extra + 1 for the sign bit
         // Don't compute logarithmis of numbers less than 1
-        let max_coeff_bit_count = max_coeff.max(1.0).log2().ceil() as usize;
+        let max_coeff_bit_count = (max_coeff.max(1.0).log2().ceil() as usize).saturating_add(1);
         if max_coeff_bit_count >= context_data.total_coeff_modulus_bit_count() {
             panic!("[Invalid argument] Values are too large to encode.");
         }
